@@ -49,56 +49,104 @@ theorem calcSlots_range {n s : Nat} (h : calcSlots n = .ok s) : 0 < s ∧ s < 21
     injection h with h
     omega
 
-/-- the exact panic threshold: ⌊4n/3⌋ needs fewer than 32 bits iff n < 3·2^29 -/
-theorem calcSlots_ok_iff (n : Nat) : (∃ s, calcSlots n = .ok s) ↔ n < 1610612736 := by
+/-! ## the load factor — only these two facts about the regenerated constants are used -/
+
+/-- loadfactor > 0 -/
+theorem lf_pos : 0 < Facts.loadfactorNum := by decide
+/-- loadfactor ≤ 1 ("always < 1" in the source; = 1 would do for everything but `calcSlots_gt`) -/
+theorem lf_le : Facts.loadfactorNum ≤ Facts.loadfactorDen := by decide
+
+/-- n / loadfactor ≥ n -/
+theorem le_scaled (n : Nat) : n ≤ scaled n := by
+  unfold scaled
+  rw [Nat.le_div_iff_mul_le lf_pos]
+  exact Nat.mul_le_mul_left n lf_le
+
+/-- the item counts the code accepts: ⌊n / loadfactor⌋ needs fewer than 32 bits -/
+def CountOk (n : Nat) : Prop := scaled n < 2147483648
+
+instance (n : Nat) : Decidable (CountOk n) := by unfold CountOk; infer_instance
+
+theorem CountOk.lt {n : Nat} (h : CountOk n) : n < 2147483648 :=
+  Nat.lt_of_le_of_lt (le_scaled n) h
+
+/-- no panic iff ⌊n / loadfactor⌋ < 2^31 (for whatever the load factor is) -/
+theorem calcSlots_ok_iff (n : Nat) : (∃ s, calcSlots n = .ok s) ↔ CountOk n := by
   have hlen : Facts.bits2primes.length = 31 + 1 := by decide
-  have hsc : scaled n < 2 ^ 31 ↔ n < 1610612736 := by
-    unfold scaled
-    have h3 : Facts.loadfactorNum = 3 := rfl
-    have h4 : Facts.loadfactorDen = 4 := rfl
-    rw [h3, h4]; omega
+  unfold CountOk
   rcases calcSlots_cases n with ⟨hb, hp⟩ | ⟨p, hb, _, hp⟩
   · rw [hlen, bitLen_le_iff] at hb
     constructor
     · rintro ⟨s, hs⟩; rw [hp] at hs; cases hs
-    · intro hn; have := hsc.mpr hn; omega
+    · intro hn; omega
   · rw [hlen, bitLen_lt_iff] at hb
-    exact ⟨fun _ => hsc.mp hb, fun _ => ⟨_, hp⟩⟩
+    exact ⟨fun _ => hb, fun _ => ⟨_, hp⟩⟩
 
-theorem calcSlots_panic_iff (n : Nat) : calcSlots n = .panic "too many items" ↔ 1610612736 ≤ n := by
+theorem calcSlots_panic_iff (n : Nat) : calcSlots n = .panic "too many items" ↔ ¬ CountOk n := by
   have h := calcSlots_ok_iff n
   rcases calcSlots_cases n with ⟨_, hp⟩ | ⟨p, _, _, hp⟩
   · constructor
-    · intro _
-      apply Nat.le_of_not_lt; intro hn
+    · intro _ hn
       obtain ⟨s, hs⟩ := h.mpr hn
       rw [hp] at hs; cases hs
     · intro _; exact hp
-  · have : n < 1610612736 := h.mp ⟨_, hp⟩
+  · have : CountOk n := h.mp ⟨_, hp⟩
     constructor
     · intro h2; rw [hp] at h2; cases h2
-    · intro h2; omega
+    · intro h2; exact absurd this h2
 
-/-- "a prime bigger than n": the table is never full (load factor < 1) -/
-theorem calcSlots_gt {n s : Nat} (h : calcSlots n = .ok s) : n < s := by
+/-- a sufficient count that does not mention the exact load factor: below 2^30 items whenever the
+    load factor is at least 1/2 -/
+theorem countOk_of_lt_2pow30 (hhalf : Facts.loadfactorDen ≤ 2 * Facts.loadfactorNum) {n : Nat}
+    (hn : n < 1073741824) : CountOk n := by
+  unfold CountOk scaled
+  rw [Nat.div_lt_iff_lt_mul lf_pos]
+  calc n * Facts.loadfactorDen ≤ n * (2 * Facts.loadfactorNum) := Nat.mul_le_mul_left n hhalf
+    _ = (2 * n) * Facts.loadfactorNum := by rw [Nat.mul_comm 2 n, Nat.mul_assoc]
+    _ < 2147483648 * Facts.loadfactorNum := Nat.mul_lt_mul_of_pos_right (by omega) lf_pos
+
+/-- the exact threshold for the load factor as it is today (3/4): 3·2^29 items -/
+theorem countOk_iff_current (h3 : Facts.loadfactorNum = 3) (h4 : Facts.loadfactorDen = 4) (n : Nat) :
+    CountOk n ↔ n < 1610612736 := by
+  unfold CountOk scaled
+  rw [h3, h4]; omega
+
+/-- "a prime bigger than n": holds whenever every table entry b is at least loadfactor·2^b (the
+    hypothesis ties the hand-written prime table to the load factor; see `primes_big` for today's) -/
+theorem calcSlots_gt_of_table
+    (htab : ∀ b, b < Facts.bits2primes.length →
+      Facts.loadfactorNum * 2 ^ b ≤ Facts.loadfactorDen * (Facts.bits2primes[b]?.getD 0).toNat)
+    {n s : Nat} (h : calcSlots n = .ok s) : n < s := by
   rcases calcSlots_cases n with ⟨_, hp⟩ | ⟨p, hb, hs, hp⟩
   · rw [hp] at h; cases h
   · rw [hp] at h; injection h with h
-    have hbig := primes_big _ hb
+    have hbig := htab _ hb
     rw [hs] at hbig; simp only [Option.getD_some] at hbig
-    have hpos := (primes_range p (List.mem_of_getElem? hs)).1
-    -- scaled n < 2 ^ bitLen (scaled n)
-    have hlt : scaled n < 2 ^ bitLen (scaled n) := by
-      have := (bitLen_lt_iff (scaled n) (bitLen (scaled n))).mp (Nat.lt_succ_self _)
-      exact this
-    have h3 : Facts.loadfactorNum = 3 := rfl
-    have h4 : Facts.loadfactorDen = 4 := rfl
-    unfold scaled at hlt; rw [h3, h4] at hlt
-    have hq : (p.toNat : Int) = p := Int.toNat_of_nonneg (by omega)
-    unfold scaled at hbig; rw [h3, h4, ← hq] at hbig
-    have hk : 3 * 2 ^ bitLen (n * 4 / 3) ≤ 4 * p.toNat := by exact_mod_cast hbig
     subst h
-    generalize 2 ^ bitLen (n * 4 / 3) = X at hk hlt
-    omega
+    have hlt : scaled n < 2 ^ bitLen (scaled n) :=
+      (bitLen_lt_iff (scaled n) (bitLen (scaled n))).mp (Nat.lt_succ_self _)
+    -- n·Den < (scaled n + 1)·Num ≤ 2^b·Num ≤ Den·p
+    have h1 : n * Facts.loadfactorDen < (scaled n + 1) * Facts.loadfactorNum := by
+      unfold scaled
+      exact Nat.lt_mul_of_div_lt (Nat.lt_succ_self _) lf_pos
+    have h2 : (scaled n + 1) * Facts.loadfactorNum ≤ 2 ^ bitLen (scaled n) * Facts.loadfactorNum :=
+      Nat.mul_le_mul_right _ hlt
+    have h3 : n * Facts.loadfactorDen < p.toNat * Facts.loadfactorDen := by
+      rw [Nat.mul_comm p.toNat]; rw [Nat.mul_comm _ (2 ^ _)] at hbig; omega
+    exact Nat.lt_of_mul_lt_mul_right h3
+
+/-- today's load factor and table: the table has more slots than items -/
+theorem calcSlots_gt_current (h3 : Facts.loadfactorNum = 3) (h4 : Facts.loadfactorDen = 4)
+    {n s : Nat} (h : calcSlots n = .ok s) : n < s := by
+  apply calcSlots_gt_of_table _ h
+  intro b hb
+  have hbig := primes_big b hb
+  rw [h3, h4]
+  have hpos : 0 ≤ Facts.bits2primes[b]?.getD 0 := by
+    cases hg : Facts.bits2primes[b]? with
+    | none => simp
+    | some p => simp; exact Int.le_of_lt (primes_range p (List.mem_of_getElem? hg)).1
+  rw [← Int.toNat_of_nonneg hpos] at hbig
+  exact_mod_cast hbig
 
 end Verif.SMap
